@@ -3,6 +3,7 @@ package checks
 import (
 	"context"
 	"fmt"
+	"fortio.org/log"
 	"strings"
 	"time"
 
@@ -26,8 +27,8 @@ var c10Good = []string{
 	`m = {"a": 1}; m.a = 2; println(m, len("abc"), [1, 2][0])`,
 	`func lp() { t = 0; for k = 4 { if k == 2 { continue }; t = t + k }; t }; println(lp())`,
 	`println(catch(for i9 = 2 { i9 = "a" }).err)`, // observes whether top level loops still get a register
-	`println(catch(rec(14)).value)`, // a call whose frames are in flight when the CANCEL inputs below are cut off
-	`DEPTHPROBE`, // replaced by the deepest recursion that still fits under MaxDepth: fails if any depth level leaked
+	`println(catch(rec(14)).value)`,               // a call whose frames are in flight when the CANCEL inputs below are cut off
+	`DEPTHPROBE`,                                  // replaced by the deepest recursion that still fits under MaxDepth: fails if any depth level leaked
 	// an input that is itself cut off inside its own functions: its error text, stack included, is compared
 	`CANCEL:50:ob2 = func(n) { if n == 0 { 0 } else { 1 + self(n - 1) } }; ob1 = func() { ob2(5) }; println(ob1())`,
 }
@@ -50,7 +51,7 @@ var c10Bad = []string{
 	`[1, 2, func() { error("in array") }()]`,
 	`func(a, b) { a + b }(1)`,
 	`for z1 = 2 { for z2 = 3 { verif_panic() } }`, // leaves registers allocated in the root environment (its loop variables are not observed by the succeeding inputs)
-	`for z3 = 2 { rec(100) }`,                      // depth overflow (or unknown function) inside a counted loop at top level
+	`for z3 = 2 { rec(100) }`,                     // depth overflow (or unknown function) inside a counted loop at top level
 	// cancellation striking inside memoizable calls (frames rec(16)..rec(13) in flight), at 1/4, 1/2 and 3/4 of the evaluation
 	`CANCEL:25:println(rec(16))`, `CANCEL:50:println(rec(16))`, `CANCEL:75:println(rec(16))`,
 	`break`, `if true { continue }`, `func() { break }()`, `for true { func() { continue }() }`,
@@ -175,6 +176,9 @@ func c10Encode(h []int) string {
 	return strings.Join(parts, ",")
 }
 
+// c10DebugBad: the failing inputs of the history are evaluated at debug log level.
+var c10DebugBad bool
+
 func c10Check(h []int, noReg bool) *core.Viol {
 	cfg := sessCfg{noReg: noReg, maxDepth: c10MaxDepth}
 	// base history (succeeding inputs only)
@@ -189,7 +193,16 @@ func c10Check(h []int, noReg bool) *core.Viol {
 	k := 0
 	for i, x := range h {
 		if x < 0 {
-			r := c10Step(full, c10Bad[-x-1])
+			var r stepRec
+			if c10DebugBad {
+				// the failing input evaluated at debug log level (the later inputs at the normal one)
+				prev := log.GetLogLevel()
+				log.SetLogLevelQuiet(log.Debug)
+				r = c10Step(full, c10Bad[-x-1])
+				log.SetLogLevelQuiet(prev)
+			} else {
+				r = c10Step(full, c10Bad[-x-1])
+			}
 			if len(r.errs) == 0 && !r.panicked && strings.HasPrefix(c10Bad[-x-1], "CANCEL:") {
 				return nil // finished before the cancellation instant (its calls were already cached): not a failing input here
 			}
@@ -311,6 +324,14 @@ func runC10(c *core.Ctx) {
 				break
 			}
 		}
+		if out == "no-trace" && len(h) <= 3 {
+			c10DebugBad = true
+			if v := c.Run(func() *core.Viol { return c10Check(h, false) }); v != nil {
+				out = v.Class
+				v.Detail = "(failing inputs at debug log level) " + v.Detail
+			}
+			c10DebugBad = false
+		}
 		c.CountNT("hist: "+trunc(c10Render(h), 200), out, true)
 		c.P.Traces++
 		c.P.Transitions += int64(len(h)) * 2
@@ -374,9 +395,9 @@ func runC10(c *core.Ctx) {
 
 func init() {
 	core.Register(&core.Check{
-		ID:    "C10",
-		Level: "model_checking",
-		Rule: "history exploration through the real repl.EvalOne on one persistent eval.State (MaxDepth 60): base histories = every sequence of <=2 (thorough 3) of 12 succeeding inputs (printing, defining and calling printing/cached/recursive functions, closures, counted and list loops, global updates); into each, every placement of one side-effect-free failing input of 15 kinds (language error at top level / in nested calls / in nested loops / in an array literal / wrong arity, Go runtime panic in a function / in a loop / in nested loops, depth overflow at top level and in a function, pre-cancelled context, cancellation inside a function, parse error, error while building print arguments) repeated 1, 2, 9 and 17 times at every position, and every placement of two failing inputs. Oracle: each succeeding input's output, result, errors equal those of the base history without the failing inputs. Non-trivial = every history; distinct by input sequence. One compared input is itself cut off inside its own functions: its error text is compared together with the stack the error carries.",
+		ID:          "C10",
+		Level:       "model_checking",
+		Rule:        "history exploration through the real repl.EvalOne on one persistent eval.State (MaxDepth 60): base histories = every sequence of <=2 (thorough 3) of 12 succeeding inputs (printing, defining and calling printing/cached/recursive functions, closures, counted and list loops, global updates); into each, every placement of one side-effect-free failing input of 15 kinds (language error at top level / in nested calls / in nested loops / in an array literal / wrong arity, Go runtime panic in a function / in a loop / in nested loops, depth overflow at top level and in a function, pre-cancelled context, cancellation inside a function, parse error, error while building print arguments) repeated 1, 2, 9 and 17 times at every position, and every placement of two failing inputs. Oracle: each succeeding input's output, result, errors equal those of the base history without the failing inputs. Non-trivial = every history; distinct by input sequence. One compared input is itself cut off inside its own functions: its error text is compared together with the stack the error carries.",
 		Assume:      []string{"runtime panics injected by the harness extension verif_panic()", "cancellation injected by verif_cancel() and a pre-cancelled context"},
 		QuickCap:    300 * time.Second,
 		ThoroughCap: 20 * time.Minute,
